@@ -18,6 +18,15 @@ func init() {
 // stay live while a reference is held and are released exactly once by the drop of the last one.
 func H20_refs() {
 	sb, _, sp := vSmallSegment()
+	// second kind of segment: one with a synonym section (its lookups go through a lazily filled cache)
+	var spSyn *sSynSpec
+	if vBool("synSegment") {
+		var z ZapPlugin
+		sdocs, ssp := vGenSynBatchFixed()
+		seg, _, err := z.newWithChunkMode(sdocs, DefaultChunkMode)
+		vAssert(err == nil, "build-syn")
+		sb, spSyn = seg.(*SegmentBase), ssp
+	}
 	path := vP("r.zap")
 	vAssert(sb.Persist(path) == nil, "persist")
 	var z ZapPlugin
@@ -41,9 +50,16 @@ func H20_refs() {
 			refs--
 			vAssert(err == nil, "close-nil")
 		case 3:
+			if spSyn != nil {
+				sCheckThesauri(s, spSyn, nil, nil, "read-")
+				id, err := s.DocID(1)
+				vAssert(err == nil && string(id) == "s0", "read-docid")
+				break
+			}
 			sCheckStored(s, sp, "read-")
 			pl, err := mustDict(s, "f").PostingsList([]byte("a"), nil, nil)
 			vAssert(err == nil && pl.Count() == 2, "read-postings")
+			sCheckDocValues(s, sp, []int{1, 0}, "read-")
 		}
 		if refs > 0 {
 			vAssert(vFSOpenHandles() == 1, "early-close")
@@ -161,6 +177,7 @@ func H10_seq() {
 			fields: []gField{
 				{name: "f", terms: []string{"a"}, tv: true, maxLocs: 1, store: true},
 				{name: "g", terms: []string{"c"}},
+				{name: "h", terms: []string{"e"}, dv: true, always: true, allTerm: true, fixFreq: true},
 			}})
 		seg, _, err := z.newWithChunkMode(docs, DefaultChunkMode)
 		vAssert(err == nil, tag+"build")
@@ -188,7 +205,7 @@ func H10_seq() {
 		fields: []gField{
 			{name: "f", terms: []string{"a", "b"}, tv: true, maxLocs: 1, dv: true, store: true, always: true},
 			{name: "g", terms: []string{"c"}, dv: true, always: true, allTerm: true},
-			{name: "h", terms: []string{"d"}, dv: true, store: true, always: true, allTerm: true},
+			{name: "h", terms: []string{"d"}, dv: true, store: true, always: true, allTerm: true, shape: true},
 		}})
 	if vBool("aSyn") {
 		aDocs = append(aDocs, &vSynDoc{vDoc{id: "as", fields: []index.Field{vIDField("as"), &vSynField{name: "t1", terms: []string{"x"}, syns: [][]string{{"p", "q"}}}}}})
